@@ -169,8 +169,13 @@ pub fn load_findings(path: &str, prop: &str) -> Vec<Finding> {
                     false,
                 )),
                 Value::Object(o) => {
-                    let p = o.get("prefix").and_then(|x| x.as_str()).expect("match object needs prefix");
-                    matcher.push((k.clone(), vec![p.to_string()], true));
+                    // {"prefix": "..."} or {"prefix": ["...", "..."]}
+                    let ps: Vec<String> = match o.get("prefix") {
+                        Some(Value::String(p)) => vec![p.clone()],
+                        Some(Value::Array(a)) => a.iter().filter_map(|x| x.as_str().map(String::from)).collect(),
+                        _ => panic!("match object needs prefix"),
+                    };
+                    matcher.push((k.clone(), ps, true));
                 }
                 _ => panic!("bad matcher in finding {}", f["id"]),
             }
